@@ -31,6 +31,7 @@ PY = "/venv/bin/python"
 OUTDIR = os.path.join(VERIF, "findings", "sweep")
 ROOT = os.path.join(tempfile.gettempdir(), "verif-mut-%d" % os.getpid())
 
+TAG = [""]
 _local = threading.local()
 _lock = threading.Lock()
 _n = [0]
@@ -128,7 +129,7 @@ def stage(name, fn, jobs, only, out):
     todo = [m for m in all_mutants(only) if m["id"] not in done]
     if name == "tests":
         # mutants on which every check stayed silent first: those are the ones to triage
-        ck = load(os.path.join(OUTDIR, "checks.jsonl"))
+        ck = load(os.path.join(OUTDIR, "checks%s.jsonl" % TAG[0]))
         todo.sort(key=lambda m: 0 if (m["id"] in ck and not ck[m["id"]].get("violation") and not ck[m["id"]].get("error")) else 1)
     print("%s: %d mutants to do (%d done)" % (name, len(todo), len(done)), flush=True)
     fh = open(out, "a")
@@ -147,8 +148,8 @@ def stage(name, fn, jobs, only, out):
 
 
 def report(args):
-    ck = load(os.path.join(OUTDIR, "checks.jsonl"))
-    ts = load(os.path.join(OUTDIR, "tests.jsonl"))
+    ck = load(os.path.join(OUTDIR, "checks%s.jsonl" % args.tag))
+    ts = load(os.path.join(OUTDIR, "tests%s.jsonl" % args.tag))
     ms = {m["id"]: m for m in all_mutants()}
     rows = []
     for mid, m in ms.items():
@@ -166,7 +167,7 @@ def report(args):
     print("pass the unedited test suite: %d ; of those flagged: %d, analysis-error: %d, silent: %d" % (
         len(tp), sum(1 for r in tp if r[2]), sum(1 for r in tp if r[3] and not r[2]), sum(1 for r in tp if not r[2] and not r[3])))
     surv = [r for r in rows if not r[2] and not r[3] and r[4] is not False]
-    path = os.path.join(OUTDIR, "survivors.json")
+    path = os.path.join(OUTDIR, "survivors%s.json" % args.tag)
     json.dump([{"id": r[0], "file": r[1]["file"], "func": r[1]["func"], "line": r[1]["line"], "op": r[1]["op"],
                 "before": r[1]["before"], "after": r[1]["after"], "tests_pass": r[4]} for r in surv],
               open(path, "w"), indent=1)
@@ -186,11 +187,13 @@ if __name__ == "__main__":
     ap.add_argument("-j", type=int, default=14)
     ap.add_argument("--only", action="append")
     ap.add_argument("--out")
+    ap.add_argument("--tag", default="", help="suffix of the result files (checks<tag>.jsonl / tests<tag>.jsonl)")
     a = ap.parse_args()
     if a.cmd == "checks":
-        stage("checks", run_checks, a.j, a.only, a.out or os.path.join(OUTDIR, "checks.jsonl"))
+        stage("checks", run_checks, a.j, a.only, a.out or os.path.join(OUTDIR, "checks%s.jsonl" % a.tag))
     elif a.cmd == "tests":
-        stage("tests", run_tests, a.j, a.only, a.out or os.path.join(OUTDIR, "tests.jsonl"))
+        TAG[0] = a.tag
+        stage("tests", run_tests, a.j, a.only, a.out or os.path.join(OUTDIR, "tests%s.jsonl" % a.tag))
     elif a.cmd == "probe":
         # run (some) checks on the mutants selected with --only, print the verdicts, keep nothing
         os.makedirs(ROOT, exist_ok=True)
